@@ -58,7 +58,7 @@ MANIFEST = dict(
          "(valid_source_never_fails) they give the property with no side condition on the run. On every run the job graph instance is regenerated from the "
          "running code (hooks), the recorded history is replayed through the model (every real launch must be enabled "
          "in the model), every pair of jobs touching a common context item (one writing) is extracted from the ACL log, "
-         "and safe_graph, live_graph (rank = recorded launch order) and calm_graph are evaluated on it in Coq; when one "
+         "and safe_graph, live_graph (rank certificate = a layering of the graph constraints computed by the harness) and calm_graph are evaluated on it in Coq; when one "
          "rejects the graph the model is searched for a schedule that starts a reader early / gets stuck / panics; overlapping conflicting accesses observed directly are reported with "
          "the source as replay.",
     note="Trusted: Coq kernel + vm_compute; hand-written scheduler model and its tie (hooks + replay); read/write sets are "
